@@ -304,12 +304,18 @@ impl Unit {
 
     /// Returns the smaller of the two units, i.e. the one with the smaller
     /// conversion factor to the base unit representation. This is useful
-    /// to ensure commutativity of addition/subtraction.
+    /// to ensure commutativity of addition/subtraction. For two units of
+    /// exactly the same size (`kph` and `km/h`), the choice must not depend
+    /// on the order of the arguments either.
     pub fn smaller_unit<'a>(&'a self, other: &'a Self) -> &'a Self {
         let (_, self_factor) = self.to_base_unit_representation();
         let (_, other_factor) = other.to_base_unit_representation();
 
-        if self_factor.to_f64() <= other_factor.to_f64() {
+        if self_factor.to_f64() < other_factor.to_f64() {
+            self
+        } else if other_factor.to_f64() < self_factor.to_f64() {
+            other
+        } else if self.canonicalized().iter().le(other.canonicalized().iter()) {
             self
         } else {
             other
